@@ -92,11 +92,11 @@ theorem failure_leaves_dest' (p : Puller) (s : Script) (codec : Codec) (fs₀ : 
     (hfail : expected p s codec = none) :
     let r := run Gen.Commit.steps p s codec
     r.ret = .err ∧ (runOps fs₀ r.ops).dest = fs₀.dest ∧
-    ((runOps fs₀ r.ops).tmp = none ∨ (r.ops = [] ∧ (s.openOk = false ∨ tagsOk p s = false))) := by
+    ((runOps fs₀ r.ops).tmp = none ∨ (r.ops = [] ∧ (s.openOk = false ∨ preOk p s = false))) := by
   rw [source_order.1]
   obtain ⟨a, b, c⟩ := run_of_expected_none p s codec hfail
   refine ⟨a, dest_of_noRename _ _ c, ?_⟩
-  by_cases hg : (s.openOk && tagsOk p s) = true
+  by_cases hg : (s.openOk && preOk p s) = true
   · left
     rcases b with b | b
     · -- an empty list is impossible once `interp` ran (it starts with `create`)
@@ -113,7 +113,7 @@ theorem failure_leaves_dest' (p : Puller) (s : Script) (codec : Codec) (fs₀ : 
     · exact tmp_of_last_remove _ _ b.1
   · right
     refine ⟨by simp [run, hg], ?_⟩
-    cases ho : s.openOk <;> cases ht : tagsOk p s <;> simp_all
+    cases ho : s.openOk <;> cases ht : preOk p s <;> simp_all
 
 /-- A non-failing script returns `Ok` and the destination holds exactly the expected content (the
 whole stream, decompressed where the puller decompresses, verified trailer stripped); no temp file. -/
@@ -144,7 +144,7 @@ theorem fit_some {lim : Option Nat} {x c : Bytes} (h : fit lim x = some c) :
 
 theorem published_only_if (p : Puller) (s : Script) (codec : Codec) (c : Bytes)
     (h : expected p s codec = some c) :
-    s.openOk = true ∧ tagsOk p s = true ∧ (p.verifies = true → s.verifyOk = true) ∧ s.renameOk = true ∧
+    s.openOk = true ∧ preOk p s = true ∧ (p.verifies = true → s.verifyOk = true) ∧ s.renameOk = true ∧
     s.syncOk = true ∧ (∀ k, s.writeFault = some k → c.length ≤ k) ∧
     ∃ wb lg, payloadN (if p.usesWriteFile then s.stop else none) s.wire = some wb ∧
       (if p.decodes && s.comp == .zstd then codec.dec wb else some wb) = some lg ∧
@@ -267,6 +267,12 @@ theorem sync_fault_fails (p : Puller) (s : Script) (codec : Codec) (hs : s.syncO
     expected p s codec = none := by
   simp [expected, hs]
 
+/-- A temp file that cannot be created (missing or unwritable parent directory) is a failing script, and
+nothing at all is done to the file system. -/
+theorem create_fault_fails (p : Puller) (s : Script) (codec : Codec) (hs : s.createOk = false) :
+    expected p s codec = none ∧ run Gen.Commit.steps p s codec = ⟨[], .err⟩ := by
+  simp [expected, run, preOk, hs]
+
 /-- A write refused by the file system (ENOSPC / EFBIG / EDQUOT … after `k` bytes) anywhere inside the
 content — first byte, a chunk boundary, the last byte — is a failing script for every puller:
 `failure_leaves_dest` applies (Err, destination untouched, temp file removed). -/
@@ -275,7 +281,7 @@ theorem write_fault_fails (p : Puller) (s : Script) (codec : Codec) (c : Bytes) 
     expected p { s with writeFault := some k } codec = none := by
   rw [expected_eq] at hc ⊢
   have e : streamContent p { s with writeFault := some k } codec = streamContent p { s with writeFault := none } codec := rfl
-  have t : tagsOk p { s with writeFault := some k } = tagsOk p { s with writeFault := none } := by
+  have t : preOk p { s with writeFault := some k } = preOk p { s with writeFault := none } := by
     cases p <;> rfl
   rw [e, t]
   split at hc
@@ -296,7 +302,7 @@ theorem write_limit_not_reached (p : Puller) (s : Script) (codec : Codec) (c : B
     expected p { s with writeFault := some k } codec = some c := by
   rw [expected_eq] at hc ⊢
   have e : streamContent p { s with writeFault := some k } codec = streamContent p { s with writeFault := none } codec := rfl
-  have t : tagsOk p { s with writeFault := some k } = tagsOk p { s with writeFault := none } := by
+  have t : preOk p { s with writeFault := some k } = preOk p { s with writeFault := none } := by
     cases p <;> rfl
   rw [e, t]
   split at hc
